@@ -149,3 +149,23 @@ Proof. split; vm_compute; reflexivity. Qed.
 Definition ex_num : str := [45; 48; 120; 49; 46; 56; 112; 43; 51].   (* -0x1.8p+3 *)
 Example C13_witness_number : matchp number ex_num = Ok true /\ matchp number [48; 120] = Ok false.
 Proof. split; vm_compute; reflexivity. Qed.
+
+Definition ex_c : str := [42; 46; 99].    (* *.c *)
+Definition ex_h : str := [42; 46; 104].   (* *.h *)
+Definition ex_ac : str := [97; 42].       (* a* *)
+Example C13_witness_intersect :
+  exists a b c i j,
+    compile ex_c = Ok (Some a) /\ compile ex_h = Ok (Some b) /\ compile ex_ac = Ok (Some c)
+    /\ intersect a b = Ok i /\ can_match i = Ok false
+    /\ intersect a c = Ok j /\ can_match j = Ok true /\ matchp j [97; 46; 99] = Ok true
+    /\ (nlen a * nlen b <= 65536).
+Proof.
+  do 5 eexists. repeat (split; [vm_compute; reflexivity|]). vm_compute. discriminate.
+Qed.
+
+Example C13_witness_may_match_number :
+  may_match_number [42] = Ok (true, false)                    (* "*" may be a number *)
+  /\ may_match_number [97; 42] = Ok (false, false)             (* "a*" cannot *)
+  /\ may_match_number [91; 48; 45; 57; 93; 42] = Ok (true, false)   (* "[0-9]*" may *)
+  /\ may_match_number [91] = Ok (true, true).                 (* "[" is malformed *)
+Proof. repeat split; vm_compute; reflexivity. Qed.
